@@ -622,24 +622,24 @@ impl Relations {
 
     /// Insert a new entry at the given index
     pub fn insert(&mut self, idx: usize, entry: Entry) {
-        let is_empty = !self.0.children_with_tokens().any(|n| n.kind() == COMMA);
+        // A separator is needed unless there is nothing to separate the new entry from
+        let is_empty = !self
+            .0
+            .children()
+            .any(|n| n.kind() == ENTRY || n.kind() == SUBSTVAR);
         let (position, new_children) = if let Some(current_entry) = self.entries().nth(idx) {
-            let to_insert: Vec<NodeOrToken<GreenNode, GreenToken>> = if idx == 0 && is_empty {
-                vec![entry.0.green().into()]
-            } else {
-                vec![
-                    entry.0.green().into(),
-                    NodeOrToken::Token(GreenToken::new(COMMA.into(), ",")),
-                    NodeOrToken::Token(GreenToken::new(WHITESPACE.into(), " ")),
-                ]
-            };
+            let to_insert: Vec<NodeOrToken<GreenNode, GreenToken>> = vec![
+                entry.0.green().into(),
+                NodeOrToken::Token(GreenToken::new(COMMA.into(), ",")),
+                NodeOrToken::Token(GreenToken::new(WHITESPACE.into(), " ")),
+            ];
 
             (current_entry.0.index(), to_insert)
         } else {
             let child_count = self.0.children_with_tokens().count();
             (
                 child_count,
-                if idx == 0 {
+                if is_empty {
                     vec![entry.0.green().into()]
                 } else {
                     vec![
